@@ -125,7 +125,9 @@ class Problem:
         Returns dict(value, coef_part, intercept_part, allowance, per_unit)."""
         g, gb = self.grad(w, b)
         scale = self.rounding_scale(w, b)
-        allowance = 1e4 * EPS * scale
+        # (1e5 eps: the solvers' gradients come from an incrementally updated model fit; on a
+        # design with a column of scale 1e6 the two computations were observed 3.6e4 eps apart)
+        allowance = 1e5 * EPS * scale
         if criterion == "subdiff":
             per = self.pen.subdiff_dist(w, g)
         elif criterion == "fixpoint":
